@@ -6,6 +6,7 @@ CONSTANTS
   ObjKeptInCatch = TRUE
   ObjAfterMsg = TRUE
   ClearActive = TRUE
+  FilterTry = "off"
   Emit = FALSE
 VIEW view
 INVARIANT ExcOK
